@@ -149,6 +149,10 @@ pub struct Ca {
     /// (roots only) modules of additional TAL URIs, listed after the primary one
     #[serde(default)]
     pub ta_alt: Vec<usize>,
+    /// the certificate's SIA claims a publication point *below the parent's manifest file*
+    /// (`<parent manifest URI>/`); nothing is published for such a CA
+    #[serde(default)]
+    pub sia_under_parent_mft: bool,
 }
 
 #[derive(Serialize, Deserialize, Clone, Debug, PartialEq, Eq)]
@@ -189,6 +193,11 @@ pub fn module_uri(module: usize) -> String {
     format!("rsync://{}/repo/", host(module))
 }
 pub fn ca_dir_uri(sc: &Scenario, ca: usize) -> uri::Rsync {
+    if sc.cas[ca].sia_under_parent_mft {
+        if let Some(p) = sc.cas[ca].parent {
+            return uri::Rsync::from_string(format!("{}/", mft_uri(sc, p))).unwrap();
+        }
+    }
     uri::Rsync::from_string(format!("{}ca{}/", module_uri(sc.cas[ca].module), ca)).unwrap()
 }
 pub fn mft_uri(sc: &Scenario, ca: usize) -> uri::Rsync {
@@ -701,7 +710,7 @@ impl World {
                 }
             }
             let v = step.publish.get(i).copied().unwrap_or(0).min(ca.versions.len().saturating_sub(1));
-            if ca.versions.is_empty() {
+            if ca.versions.is_empty() || ca.sia_under_parent_mft {
                 continue;
             }
             let cadir = moddir.join(format!("ca{}", i));
